@@ -268,9 +268,15 @@ func (h *Handler) saveConfig(fname string) (err error) {
 		return err
 	}
 
-	err = ioutil.WriteFile(fname, stream, os.ModePerm)
+	// write to a temporary file and rename: a crash during the write must not leave a truncated lease file
+	tmp := fname + ".tmp"
+	err = ioutil.WriteFile(tmp, stream, os.ModePerm)
 	if err != nil {
-		fmt.Printf("error cannot write dhcp file: %s error %s", fname, err)
+		fmt.Printf("error cannot write dhcp file: %s error %s", tmp, err)
+		return err
+	}
+	if err = os.Rename(tmp, fname); err != nil {
+		fmt.Printf("error cannot rename dhcp file: %s error %s", fname, err)
 		return err
 	}
 
